@@ -77,7 +77,9 @@ def run_jobs(chk, jobs, profile, label, timeout=3000, shards=8):
         ef = os.path.join(chk.outdir, "%s_%s_%d.events" % (label, profile, i))
         vlib.write_ndjson(jf, part)
         try:
-            vlib.harness(hb, ["search", jf, ef], timeout=timeout)
+            # a single search that does not come back is recorded by the harness's own watchdog as "out":"timeout"
+            vlib.harness(hb, ["search", jf, ef], timeout=timeout,
+                         env={"VERIF_SEARCH_WATCHDOG_S": str(300 if chk.quick else 1200)})
         except Exception as ex:
             # a search that does not come back is data, not a tool failure: report what was running
             done = len(vlib.read_ndjson(ef)) if os.path.exists(ef) else 0
